@@ -15,6 +15,18 @@ func Dispatch(env *Env, kind string, payload json.RawMessage) (interface{}, erro
 			return nil, err
 		}
 		return RunE1(env, &j), nil
+	case "e2":
+		var j E2Job
+		if err := json.Unmarshal(payload, &j); err != nil {
+			return nil, err
+		}
+		return RunE2(env, &j), nil
+	case "e3":
+		var j E3Job
+		if err := json.Unmarshal(payload, &j); err != nil {
+			return nil, err
+		}
+		return RunE3(env, &j), nil
 	}
 	return nil, fmt.Errorf("unknown job kind %q", kind)
 }
